@@ -3,7 +3,6 @@ package main
 import (
 	"encoding/hex"
 	"math/rand"
-
 )
 
 const defaultLimit = 10 * 1024 * 1024
@@ -434,6 +433,26 @@ func generate(rng *rand.Rand, tier string) []interface{} {
 		}
 		ins = append(ins, Input{Kind: "local", Tag: "fifo", Items: items})
 	}
+	// ---- L. a Write of the sending side fails part-way (write deadline), sending goes on ----
+	for i := 0; i < 40*scale; i++ {
+		level := []string{"router", "conn"}[i%2]
+		var items []ItemSpec
+		for j := 2 + rng.Intn(4); j > 0; j-- {
+			items = append(items, msg(randVal(rng, 6+rng.Intn(20))))
+		}
+		total := wireLen(items)
+		at := rng.Intn(total)
+		switch i % 5 {
+		case 0: // inside the first header
+			at = rng.Intn(4)
+		case 1: // exactly at a frame boundary
+			at = 4 + payloadLen(items[0].Val)
+		}
+		in := stream(level, "write-fails", defaultLimit, items, randCuts(rng, total))
+		in.FailAt = &at
+		add(in)
+	}
+
 	// ---- K. goroutines sending concurrently on one connection -----------------------------
 	for i := 0; i < 9*scale; i++ {
 		level := []string{"conn", "conn", "tcp"}[i%3]
@@ -465,6 +484,14 @@ func corpus() []interface{} {
 	// the refused body carries a complete frame of a message nobody sent
 	smuggle := &ValSpec{Type: "blob", Fill: "parts", Parts: []PartSpec{{Rep: &[2]int{0, 1209}}, {Frame: &PayloadSpec{Val: blob(7, 99)}}}}
 	var out []interface{}
+	// C03-N1 (Net/SendConcProofs.v, failure_then_send_refuted): the first Send's
+	// Write fails after 5 bytes of the body, the second Send goes out whole
+	for _, level := range []string{"router", "conn"} {
+		at := 4 + 5
+		in := stream(level, "write-fails", defaultLimit, []ItemSpec{msg(blob(10, 1)), msg(blob(11, 3)), msg(blob(12, 4))}, cutStyle{})
+		in.FailAt = &at
+		out = append(out, in)
+	}
 	for _, level := range []string{"router", "tcp"} {
 		tail := []ItemSpec{}
 		if level == "tcp" {
